@@ -35,7 +35,7 @@ def zone(apex, recs, auth=True, minimum=300):
 # ---------------------------------------------------------------------------
 # universes
 
-def build_universe(r, depth=2, nservers=2, families="mixed", glue="mixed", two_glue_p=0.3):
+def build_universe(r, depth=2, nservers=2, families="mixed", glue="mixed", two_glue_p=0.3, share_root=False):
     """a consistent delegation tree from the root. returns dict(universe, hints, hostaddrs, questions, names)"""
     apexes = [[]]
     tlds = [["com"], ["org"]][: r.choice([1, 2])]
@@ -76,6 +76,9 @@ def build_universe(r, depth=2, nservers=2, families="mixed", glue="mixed", two_g
     ns_of = {}
     for a in order:
         hosts = []
+        if share_root and len(a) == 1:
+            ns_of[tuple(a)] = list(ns_of[()])       # the root's name servers also serve the top-level zones
+            continue
         for i in range(r.randint(1, nservers)):
             inzone = glue == "in" or (glue == "mixed" and r.random() < 0.6) or not a
             earlier = [b for b in order if len(b) < len(a) and b and not (len(a) > len(b) and a[len(a) - len(b):] == b)]
